@@ -12,7 +12,7 @@ use crate::refmodel::{p, Hid, Model, Param};
 use serde_json::{json, Map, Value};
 use std::sync::mpsc;
 
-pub const NCALLS: usize = 14;
+pub const NCALLS: usize = 16;
 
 struct Keys {
     a_hid: Hid,
@@ -28,9 +28,10 @@ fn keys(seed: u64) -> Keys {
         a_hid: Hid::S16,
         a_params: vec![p(4, 2), p(4, 2)],
         a_seed: det_bytes(seed, "c09-A", 16),
-        b_hid: Hid::K16,
+        // another hash family AND another output length (aliasing of per-length scratch state)
+        b_hid: Hid::K32,
         b_params: vec![p(2, 2), p(4, 2)],
-        b_seed: det_bytes(seed, "c09-B", 16),
+        b_seed: det_bytes(seed, "c09-B", 32),
     }
 }
 
@@ -50,6 +51,8 @@ pub fn call_name(i: usize) -> &'static str {
         "sign A@5 m0 with rejecting callback",
         "sign with truncated key A",
         "keygen A with fresh aux buffer",
+        "sign A2@5 m0 (same seed as A, other lower-level parameters)",
+        "keygen A2 (same seed as A, other top-level Winternitz parameter)",
     ][i]
 }
 
@@ -125,6 +128,15 @@ pub fn exec_call(seed: u64, i: usize) -> Vec<u8> {
             let mut aux = vec![0u8; 300];
             let r = lib_api::keygen(k.a_hid, &k.a_params, &k.a_seed, Some(&mut aux));
             enc_kg(r, Some(&aux))
+        }
+        // aliased inputs: same seed (hence same tree identifiers) under other parameters
+        14 => {
+            let p2 = vec![k.a_params[0], p(2, 2)];
+            enc_sign(&lib_api::sign(k.a_hid, &ma.make_blob(5, &p2, &k.a_seed), &m0, Cb::Accept, None, Entry::Bytes))
+        }
+        15 => {
+            let p2 = vec![p(8, 2), k.a_params[1]];
+            enc_kg(lib_api::keygen(k.a_hid, &p2, &k.a_seed, None), None)
         }
         _ => vec![],
     }
@@ -379,9 +391,9 @@ pub fn run_c09(ctx: &Ctx) -> (&'static str, Map<String, Value>) {
     }
     // schedules: all interleavings of two threads x three calls, over a set of call assignments
     let triples: Vec<Vec<usize>> = if ctx.tier.thorough() {
-        vec![vec![0, 2, 3], vec![4, 1, 8], vec![5, 10, 7], vec![11, 12, 2], vec![13, 5, 9], vec![6, 4, 1], vec![2, 2, 2], vec![3, 5, 11], vec![7, 13, 0], vec![9, 8, 10]]
+        vec![vec![0, 2, 3], vec![4, 1, 8], vec![5, 10, 7], vec![11, 12, 2], vec![13, 5, 9], vec![6, 4, 1], vec![2, 2, 2], vec![3, 5, 11], vec![7, 13, 0], vec![9, 8, 10], vec![14, 2, 15], vec![2, 14, 2], vec![15, 0, 14]]
     } else {
-        vec![vec![0, 2, 3], vec![4, 1, 8], vec![5, 10, 7], vec![11, 12, 2], vec![13, 5, 9], vec![6, 4, 1]]
+        vec![vec![0, 2, 3], vec![4, 1, 8], vec![5, 10, 7], vec![11, 12, 2], vec![13, 5, 9], vec![6, 4, 1], vec![14, 2, 15], vec![2, 14, 2]]
     };
     let ils = interleavings(3, 3);
     let mut schedules = 0u64;
@@ -436,7 +448,7 @@ pub fn run_c09(ctx: &Ctx) -> (&'static str, Map<String, Value>) {
     m.insert("free_running_calls_SAMPLING".into(), json!(free_calls));
     m.insert("structural_side_condition_holds".into(), json!(clean));
     m.insert("alphabet".into(), json!((0..NCALLS).map(call_name).collect::<Vec<_>>()));
-    m.insert("rule".into(), json!(format!("every sequence of calls over a 14-call alphabet up to depth {} (state = the history, no merging), each executed call compared with the pristine result of the same call from a fresh process; all 20 interleavings of two OS threads x three calls for {} call assignments under a baton scheduler", depth, triples.len() * triples.len())));
+    m.insert("rule".into(), json!(format!("every sequence of calls over a 16-call alphabet up to depth {} (state = the history, no merging), each executed call compared with the pristine result of the same call from a fresh process; all 20 interleavings of two OS threads x three calls for {} call assignments under a baton scheduler", depth, triples.len() * triples.len())));
     m.insert("exhaustive".into(), json!(true));
     ("model_checking", m)
 }
